@@ -1025,3 +1025,74 @@ def post_init_views(ctx) -> Dict[str, FuncInfo]:
                                                                             f'{indentor}-bullets-{bullets}')
     ctx._post_init_views = out
     return out
+
+
+# ---- the typed getters of ElementHelper, decided by interpretation (E7): shared by C05 (values kept) and C15 (refusals) -------------
+def getters_by_interpretation(ctx):
+    """Every typed getter of json_ast.ElementHelper interpreted (dznverif.scenario) on an element in which the key is absent,
+    or present with each kind of JSON value - string, empty string, number, zero, true / false, null, object, empty object, list,
+    empty list.  Contract: `get_<T>_value` hands back the value exactly when it is present and of type T (falsy ones - 0, '',
+    {}, [] - included) and raises DznJsonError otherwise; `tryget_<T>_value` additionally hands back None for an absent key.
+    Returns None when the class cannot be interpreted, else a list of (getter name, kind, text) with kind 'lost' (a
+    well-typed value is refused or altered: C05) or 'leak' (a value of the wrong type comes back, or another exception than
+    DznJsonError is raised: C15); an empty list when every getter keeps its contract; plus the number of evaluations."""
+    cache = ctx.__dict__.get('_getters_by_interpretation')
+    if cache is not None:
+        return cache
+    from ..scenario import Interp, Raised, Undecided, Obj
+    prog = ctx.prog
+    try:
+        eh = prog.cls('json_ast', 'ElementHelper')
+    except Exception:       # pylint: disable=broad-except
+        return None
+    err = prog.classes.get('dznpy.json_ast.DznJsonError')
+    types = {'str': str, 'dict': dict, 'int': int, 'list': list}
+    values = [('a string', 'text'), ('an empty string', ''), ('a number', 5), ('zero', 0), ('a negative number', -3), ('true', True), ('false', False),
+              ('null', None), ('an object', {'k': 'v'}), ('an empty object', {}), ('a list', ['x']), ('an empty list', []),
+              ('a fraction', 1.5)]
+    out: List[Tuple[str, str, str]] = []
+    n = 0
+    try:
+        for mname, m in sorted(eh.methods.items()):
+            parts = mname.split('_')
+            if len(parts) != 3 or parts[0] not in ('get', 'tryget') or parts[2] != 'value' or parts[1] not in types:
+                continue
+            ty = types[parts[1]]
+            for label, v in [('absent', NotImplemented)] + values:
+                it = Interp(prog)
+                element = {'<class>': 'thing', 'other': 1}
+                if v is not NotImplemented:
+                    element['key'] = v
+                helper = it.construct(eh, [element, 'ctx'], {})
+                n += 1
+                well_typed = v is not NotImplemented and isinstance(v, ty) and not (ty is int and isinstance(v, float))
+                try:
+                    res = it.call_function(m, ['key'], {}, self_val=helper)
+                    raised = None
+                except Raised as exc:
+                    res, raised = None, exc.name
+                documented = raised is not None and err is not None and (raised == err.fq or prog.is_subclass(raised, err.fq) if raised in prog.classes else False)
+                if well_typed:
+                    if raised is not None:
+                        out.append((mname, 'lost', f'{mname}: a key holding {label} ({v!r}) is refused with {raised.split(".")[-1]} although it is a {parts[1]}'))
+                    elif not (res is v or (type(res) is type(v) and res == v)):
+                        out.append((mname, 'lost', f'{mname}: a key holding {label} ({v!r}) comes back as {res!r}'))
+                elif v is NotImplemented and parts[0] == 'tryget':
+                    if raised is not None:
+                        out.append((mname, 'lost', f'{mname}: an absent key raises {raised.split(".")[-1]} instead of yielding None'))
+                    elif res is not None:
+                        out.append((mname, 'leak', f'{mname}: an absent key yields {res!r}'))
+                else:
+                    what = 'an absent key' if v is NotImplemented else f'a key holding {label} ({v!r})'
+                    if raised is None:
+                        out.append((mname, 'leak', f'{mname}: {what} is handed back as {res!r} instead of being refused with DznJsonError: '
+                                                   f'the caller goes on with a value that is no {parts[1]}'))
+                    elif not documented:
+                        out.append((mname, 'leak', f'{mname}: {what} raises {raised.split(".")[-1]}, not DznJsonError'))
+    except Undecided as exc:
+        ctx.run.remark(f'ElementHelper getters could not be interpreted ({exc})')
+        return None
+    if n == 0:
+        return None
+    ctx.__dict__['_getters_by_interpretation'] = (out, n)
+    return out, n
